@@ -69,7 +69,7 @@ theorem atStart_rec (s : Sys) (now : Time) (pc : Nat) (oid : Oid) :
     exact ⟨g, hg, e⟩
   · exact ⟨id, fun _ => ⟨rfl, rfl, rfl, rfl⟩, by simp⟩
 
-theorem atStart_planTasks (s : Sys) (now : Time) (pc : Nat) (oid o : Oid) :
+theorem atStart_planTasks_eq (s : Sys) (now : Time) (pc : Nat) (oid o : Oid) :
     planTasks (atStart s now pc oid) o = planTasks s o := by
   rcases atStart_plans s now pc oid with h | h
   · exact planTasks_of_plans h o
